@@ -127,7 +127,7 @@ def parseEv (t : String) : Option Ev :=
   else
     let code := (t.take 2).toString
     let arg := (t.drop 2).toString
-    if ["di", "ac", "er", "ey", "sp", "fw", "fd", "fe", "fn"].contains code then some ⟨.d, code, arg, false, t⟩
+    if ["di", "ac", "er", "ey", "sp", "sd", "fw", "fd", "fe", "fn"].contains code then some ⟨.d, code, arg, false, t⟩
     else if ["ws", "wp", "ww", "we", "wt", "wx", "wr"].contains code then (arg.toNat?).map fun k => ⟨.w k, code, arg, false, t⟩
     else none
 
@@ -139,11 +139,16 @@ structure RS where
 
 /-- labels the dispatcher performs between its previous trace point and arriving at `code` -/
 def dLabels (prevD code : String) : List Label :=
+  -- "sp" = trace point before the go statement, "sd" = trace point right after it (may be absent in the build)
   match code with
-  | "di" | "fw" => if prevD == "sp" then [.spawn] else []
+  | "di" | "fw" =>
+    if prevD == "sp" then (if F.addAfterGo then [.spawn, .add] else [.spawn])
+    else if prevD == "sd" then (if F.addAfterGo then [.add] else [])
+    else []
   | "ac" => [.acquire]
   | "er" => [.recvErr]
-  | "sp" => [.add]
+  | "sp" => if F.addAfterGo then [] else [.add]
+  | "sd" => [.spawn]
   | "ey" => [.earlyRet]
   | "fd" => [.finalWait]
   | "fe" | "fn" => [.finalRecv]
@@ -289,8 +294,8 @@ def obsStr (s : State) : String := s!"{retStr s.ret} {writtenStr s}"
 def forcedTok (s : State) : Label → Option String
   | .acquire => some "d>ac"
   | .recvErr => some "d>er"
-  | .add => some "d>sp"
-  | .spawn => some "d>nx"
+  | .add => some (if F.addAfterGo then "d>nx" else "d>sp")
+  | .spawn => some (if F.addAfterGo then "d>sd" else "d>nx")
   | .earlyRet => some "d>rt"
   | .finalWait => some "d>fd"
   | .finalRecv => some "d>rt"
